@@ -314,7 +314,7 @@ signal_base::operator=(const signal_base& src)
 signal_base&
 signal_base::operator=(signal_base&& src)
 {
-  if (src.impl_ == impl_)
+  if (&src == this)
     return *this;
 
   impl_ = src.impl_;
